@@ -297,6 +297,12 @@ def gen_dupkey(c, rng):
     order = rng.choice(["sequential", "later-handler-first", "three-handlers"])
     A, B, C = "G %s 0\n" % hx("alpha"), "G %s 0\n" % hx("beta"), "G %s 0\n" % hx("gamma")
     d1, d2 = "AT i0 %s %s\n" % (hx(k1), hx("d")), "AT i1 %s %s\n" % (hx(k2), hx("d"))
+    # one of the two definitions may be a sub-group argument (a key like any other)
+    sgv = rng.choice(["", "", "first", "second"])
+    if sgv == "first":
+        d1 = "SGT i0 %s\n" % hx(k1)
+    elif sgv == "second":
+        d2 = "SGT i1 %s\n" % hx(k2)
     if order == "sequential":
         body = A + d1 + B + d2
     elif order == "later-handler-first":
@@ -307,7 +313,7 @@ def gen_dupkey(c, rng):
     gflags = rng.choice([0, 0, HF["listArgGroups"], HF["usageHidden"], HF["listArgGroups"] | HF["usageCont"], HF["verbose"]])
     text = lambda sid: "S %s dupkey\nGF %d\n%sV %s\nR\n" % (sid, gflags, body, hx("prog"))
     sid = c.add("c08", text)
-    c.meta.update(dup=(kind + "/" + order, k1, k2, sid), runs=[], nm=2)
+    c.meta.update(dup=(kind + "/" + order + ("/sub-group-" + sgv if sgv else ""), k1, k2, sid), runs=[], nm=2)
     return c
 
 
